@@ -63,8 +63,23 @@ def generate(rng, n, tier):
             f = [rng.choice(POOL) if rng.random() < 0.45 else 0 for _ in range(7)]
             yield {"kind": "interval", "fields": f, "neg": rng.random() < 0.3, "dialect": rng.choice(DIALECTS),
                    "via": rng.choice(["ctx", "own", "query"])}
-        elif x < 0.8:
+        elif x < 0.72:
             yield {"kind": "json", "value": json_value(rng, 0), "dialect": rng.choice(DIALECTS), "alias": rng.random() < 0.3}
+        elif x < 0.8:
+            # the JSON operators of a column (or of a JSON term): `left <op> right`, the right-hand side one literal
+            op = rng.choice(["get_json_value", "get_text_value", "get_path_json_value", "get_path_text_value", "has_key", "contains",
+                             "contained_by", "has_keys", "has_any_keys"])
+            if op in ("get_json_value", "get_text_value"):
+                arg = rng.choice([rng.choice(["k", "it's", "a b"]), rng.randint(0, 5)])
+            elif op in ("get_path_json_value", "get_path_text_value"):
+                arg = rng.choice(["{a,b}", "{a,'q'}", "{0}"])
+            elif op == "has_key":
+                arg = rng.choice(["k", "it's", "x\"y"])
+            elif op in ("contains", "contained_by"):
+                arg = rng.choice([{"a": json_value(rng, 3)}, {"k": [json_value(rng, 3)], "it's": 1}, [1, "two"], [json_value(rng, 3)], "plain"])
+            else:
+                arg = [rng.choice(["k", "it's", "a b", "z"]) for _ in range(rng.randint(1, 3))]
+            yield {"kind": "json_op", "op": op, "arg": arg, "left": rng.choice(["F('j')", "T('t').doc", "JSON({'a': [1, 2]})"])}
         else:
             yield {"kind": rng.choice(["array", "tuple"]), "n": rng.randint(0, 5), "dialect": rng.choice(DIALECTS),
                    "seed": rng.randrange(10 ** 6)}
@@ -178,6 +193,36 @@ def examine(case):
             got = parts
         if unit != wunit or got != fields or gsign != sign:
             F("interval-readback", "built %s%s %s but the literal reads %s%s %s: %s" % (sign, fields, wunit, gsign, got, unit, text))
+        return res
+    if kind == "json_op":
+        src = "%s.%s(%r)" % (case["left"], case["op"], case["arg"])
+        case["recipe"] = src
+        obj = ns.ev(src)
+        kw = {"quote_char": '"', "secondary_quote_char": "'"}
+        text = obj.get_sql(**kw)
+        sym = getattr(ns.pypika.enums.JSONOperators, {"get_json_value": "GET_JSON_VALUE", "get_text_value": "GET_TEXT_VALUE",
+              "get_path_json_value": "GET_PATH_JSON_VALUE", "get_path_text_value": "GET_PATH_TEXT_VALUE", "has_key": "HAS_KEY",
+              "contains": "CONTAINS", "contained_by": "CONTAINED_BY", "has_keys": "HAS_KEYS", "has_any_keys": "HAS_ANY_KEYS"}[case["op"]]).value
+        res.nontrivial = True
+        res.key = struct_hash(["json_op", src])
+        res.tags = ["kind=json_op", "op=" + case["op"]]
+        try:
+            res.requests.append(({"op": "render", "ctx": describe.d_ctx(kw), "term": describe.describe(obj)}, {"sql": text}, "get_sql"))
+        except Unsupported as e:
+            res.skipped = str(e)[:40]
+        left = ns.ev(case["left"]).get_sql(**kw)
+        a = case["arg"]
+        # the right-hand side the property asks for: one literal (a number, a string, a JSON document) or a list of strings
+        if case["op"] in ("has_keys", "has_any_keys"):
+            right = "[" + ",".join("'" + x.replace("'", "''") + "'" for x in a) + "]"
+        elif isinstance(a, (dict, list)):
+            right = "'" + json.dumps(a, ensure_ascii=False, separators=(",", ":")).replace("'", "''") + "'"
+        elif isinstance(a, str):
+            right = "'" + a.replace("'", "''") + "'"
+        else:
+            right = str(a)
+        if text != left + sym + right:
+            F("json-operator", "%s renders %s, expected %s%s%s" % (src, text, left, sym, right))
         return res
     if kind == "json":
         v = case["value"]
